@@ -136,36 +136,60 @@ Proof. split; [exact term_bound_example|split; [exact term_example|exact tol_zer
    for a Q' within tol of the returned Q); sqrtf, ppf, n1, n2, solve are the library functions as inputs *)
 Section Approx.
 Variables (sqrtf ppf n1 n2 : Q -> Q) (solve : Q -> Q -> Q) (h p K lam mu tol : Q).
-Hypothesis sqrt_sq : forall x, 0 <= x -> sqrtf x * sqrtf x == x.
 Hypothesis Hh : 0 < h.
 Hypothesis Hp : 0 < p.
+(* math.sqrt is an input sqrtf : Q -> Q. NOTHING global is assumed about it: an earlier version of this section assumed
+   forall x >= 0, sqrtf x * sqrtf x == x, which no function Q -> Q satisfies (2 has no rational square root), so its theorems were
+   vacuous (found by the translator work, see C14_gen_* below, stated over the reals without such a hypothesis). Each theorem now takes
+   the squaring error se of sqrtf at the ONE argument X the code passes to it (- se <= sqrtf X * sqrtf X - X <= se: se = 0 for a
+   perfect square, ~2^-52 X for the binary64 square root) and bounds the residual of the Q-equation by it. *)
 
-Theorem C14_eil_fixed_point fuel r Qn c : r_q_eil sqrtf ppf n1 h p K lam mu tol fuel = Some (r, Qn, c) ->
-  0 <= 2 * lam * (K + p * n1 r) / h ->
-  h * (Qn * Qn) == 2 * lam * (K + p * n1 r) /\
+Theorem C14_eil_fixed_point se fuel r Qn c : r_q_eil sqrtf ppf n1 h p K lam mu tol fuel = Some (r, Qn, c) ->
+  (let X := 2 * lam * (K + p * n1 r) / h in - se <= sqrtf X * sqrtf X - X <= se) ->
+  - (h * se) <= h * (Qn * Qn) - 2 * lam * (K + p * n1 r) <= h * se /\
   (exists Qp, - tol <= Qn - Qp <= tol /\ r = ppf (1 - Qp * h / (p * lam))) /\
   c = h * (r - mu + Qn / 2) + K * lam / Qn + p * lam * n1 r / Qn.
-Proof. exact (eil_fixed_point sqrtf ppf n1 h p K lam mu tol sqrt_sq Hh fuel r Qn c). Qed.
+Proof. exact (eil_fixed_point sqrtf ppf n1 h p K lam mu tol Hh se fuel r Qn c). Qed.
 
-Theorem C14_lossfn_fixed_point eps fuel r Qn :
+Theorem C14_lossfn_fixed_point eps se fuel r Qn :
   (forall rhs x0, - eps <= n1 (solve rhs x0) - rhs <= eps) ->
   r_q_lossfn sqrtf n2 solve h p K lam tol fuel = Some (r, Qn) ->
-  0 <= 2 * (K * lam + (h + p) * n2 r) / h ->
-  h * (Qn * Qn) == 2 * (K * lam + (h + p) * n2 r) /\
+  (let X := 2 * (K * lam + (h + p) * n2 r) / h in - se <= sqrtf X * sqrtf X - X <= se) ->
+  - (h * se) <= h * (Qn * Qn) - 2 * (K * lam + (h + p) * n2 r) <= h * se /\
   exists Qp, - tol <= Qn - Qp <= tol /\ - eps <= n1 r - h * Qp / (h + p) <= eps.
-Proof. exact (lossfn_fixed_point sqrtf n1 n2 solve h p K lam tol sqrt_sq Hh eps fuel r Qn). Qed.
+Proof. exact (lossfn_fixed_point sqrtf n1 n2 solve h p K lam tol Hh eps se fuel r Qn). Qed.
 
-Theorem C14_eoqb gn s fuel r Qn : 0 <= K -> 0 <= lam ->
+Theorem C14_eoqb se gn s fuel r Qn :
+  (let X := 2 * K * lam * (h + p) / (h * p) in - se <= sqrtf X * sqrtf X - X <= se) ->
   r_q_eoqb sqrtf h p K lam gn s fuel = Some (r, Qn) ->
-  h * p * (Qn * Qn) == 2 * K * lam * (h + p) /\
+  - (h * p * se) <= h * p * (Qn * Qn) - 2 * K * lam * (h + p) <= h * p * se /\
   (0 <= Qn -> - (1 / 1000000) <= gn r - gn (r + Qn) <= 1 / 1000000 /\ s - 5 * Qn <= r <= s).
-Proof. exact (eoqb_composition sqrtf h p K lam sqrt_sq Hh Hp gn s fuel r Qn). Qed.
+Proof. exact (eoqb_composition sqrtf h p K lam Hh Hp se gn s fuel r Qn). Qed.
 
-Theorem C14_eoqss : 0 <= K -> 0 <= lam ->
+Theorem C14_eoqss se :
+  (let X := 2 * K * lam / h in - se <= sqrtf X * sqrtf X - X <= se) ->
   let '(r, Qn) := r_q_eoqss sqrtf ppf h p K lam in
-  h * (Qn * Qn) == 2 * K * lam /\ r = ppf (p / (p + h)).
-Proof. exact (eoqss_composition sqrtf ppf h p K lam sqrt_sq Hh). Qed.
+  - (h * se) <= h * (Qn * Qn) - 2 * K * lam <= h * se /\ r = ppf (p / (p + h)).
+Proof. exact (eoqss_composition sqrtf ppf h p K lam Hh se). Qed.
 End Approx.
+
+(* non-vacuity of (6): h = 2, K lam = 4 so that the EOQ argument X = 2 K lam / h = 4 is a perfect square; sqrtf is the table
+   {4 -> 2} (0 elsewhere): the hypothesis holds with se = 0 and the conclusion is the exact Q-equation h Q^2 = 2 K lam;
+   with sqrtf 4 := 2 + 1/1000 the hypothesis holds with se = 4001/1000000 and not with se = 0 *)
+Example C14_approx_nonvacuous :
+  let sq := fun x : Q => if Qeq_bool x 4 then 2 else 0 in
+  let sq' := fun x : Q => if Qeq_bool x 4 then 2 + (1 # 1000) else 0 in
+  (let X := 2 * 4 * 1 / 2 in - 0 <= sq X * sq X - X <= 0) /\
+  (let '(r, Qn) := r_q_eoqss sq (fun x => x) 2 3 4 1 in Qn == 2 /\ 2 * (Qn * Qn) == 2 * 4 * 1) /\
+  (let X := 2 * 4 * 1 / 2 in - (4001 # 1000000) <= sq' X * sq' X - X <= 4001 # 1000000) /\
+  ~ (let X := 2 * 4 * 1 / 2 in - 0 <= sq' X * sq' X - X <= 0).
+Proof.
+  cbv zeta. split; [|split; [|split]].
+  - vm_compute. split; discriminate.
+  - vm_compute. split; reflexivity.
+  - vm_compute. split; discriminate.
+  - vm_compute. intros [_ H]. apply H. reflexivity.
+Qed.
 
 (* non-vacuity: g y = |y - 3| is unimodal with minimiser 3; with K lam = 10 the loop returns r = -1, Q = 7, cost 22/7,
    strictly better than its neighbours Q = 6 and Q = 8; the termination hypothesis holds with B = 11 *)
@@ -221,3 +245,173 @@ Print Assumptions C14_eil_fixed_point.
 Print Assumptions C14_lossfn_fixed_point.
 Print Assumptions C14_eoqb.
 Print Assumptions C14_eoqss.
+
+(* ======================================================================================================================= *)
+(* Property-level statements about the GENERATED terms of stockpyl.rq / stockpyl.ss (gen/Gen_rq.v, gen/Gen_ss.v, regenerated from the
+   source by py/py2v.py on every run) at the reals.  To be appended to Props/C14.v (part A) and Props/C13.v (part B) after replacing
+   `From WIP` by `From SV`; every proof is [exact <lemma of Alg/RQGen_proofs.v>].
+   Conventions of the generated terms: loop-free functions return option (None = ValueError); functions with a while loop take a
+   fuel and return option (option _): None = out of fuel, Some None = ValueError, Some (Some r) = returns r.
+   norm.cdf / norm.pdf / norm.ppf are the fields of the oracle record o (Base/Ops.v); facts about them are Section hypotheses.
+   Not modelled by the translator (excluded in the statements by 0 < demand_mean, 0 < demand_sd where it matters): Python's
+   ZeroDivisionError (float division by zero) -- the real-number term divides by 0 = 0 there. *)
+From SV Require Import Base.Ops gen.Gen_eoq gen.Gen_loss_functions gen.Gen_newsvendor Alg.ClosedForms_proofs Base.Qx Alg.RQ.
+From SV Require Import gen.Gen_rq gen.Gen_ss Alg.RQGen_proofs Alg.SqrtQ_proofs.
+From Coq Require Import Reals QArith Qreals.
+Open Scope R_scope.
+
+(* ====================================================================== part A: C14 (stockpyl.rq) *)
+
+(* (6') EOQ+SS on the generated term.  Under the six documented guards and a non-degenerate lead-time demand it returns exactly
+   r = norm.ppf(p/(p+h)) * sd sqrt(L) + lam L  and  Q = sqrt(2 K lam / h) *)
+Theorem C14_gen_eoqss_def (o : Oracles R) (h p K lam sd L : R) :
+  0 < h -> 0 < p -> 0 < K -> 0 <= lam -> 0 <= sd -> 0 <= L -> 0 < lam * L -> 0 < sd * sqrt L ->
+  r_q_eoqss_approximation (ROps o) h p K lam sd L =
+  Some (o_norm_ppf o (p / (p + h)) * (sd * sqrt L) + lam * L, sqrt (2 * K * lam / h)).
+Proof. exact (eoqss_def o h p K lam sd L). Qed.
+
+(* whatever it returns: the parameters passed all guards, Q is the translated economic_order_quantity, r the translated
+   newsvendor_normal level for (h, p, mu = lam L, sigma = sd sqrt L) *)
+Theorem C14_gen_eoqss_inv (o : Oracles R) (h p K lam sd L r Qn : R) :
+  r_q_eoqss_approximation (ROps o) h p K lam sd L = Some (r, Qn) ->
+  0 < h /\ 0 < p /\ 0 < K /\ 0 <= lam /\ 0 <= sd /\ 0 <= L /\ 0 < lam * L /\ 0 < sd * sqrt L /\
+  (exists c, economic_order_quantity (ROps o) K h lam None = Some (Qn, c)) /\
+  (exists c, newsvendor_normal (ROps o) h p (lam * L) (sd * sqrt L) 0 None = Some (r, c)) /\
+  Qn = sqrt (2 * K * lam / h) /\ r = o_norm_ppf o (p / (p + h)) * (sd * sqrt L) + lam * L.
+Proof. exact (eoqss_inv o h p K lam sd L r Qn). Qed.
+
+(* ValueError <-> None, exactly: the six documented guards or the two raised by newsvendor_normal for the lead-time demand
+   (lam L <= 0: "demand_mean must be positive"; sd sqrt L <= 0: "demand_sd must be positive") *)
+Theorem C14_gen_eoqss_ValueError_iff (o : Oracles R) (h p K lam sd L : R) :
+  r_q_eoqss_approximation (ROps o) h p K lam sd L = None <->
+  (h <= 0 \/ p <= 0 \/ K <= 0 \/ lam < 0 \/ sd < 0 \/ L < 0 \/ lam * L <= 0 \/ sd * sqrt L <= 0).
+Proof. exact (eoqss_None_iff o h p K lam sd L). Qed.
+
+(* Q is the EOQ: positive, Q*Q*h = 2 K lam, and it minimises the translated EOQ cost over all order quantities *)
+Theorem C14_gen_eoqss_Q_is_EOQ (o : Oracles R) (h p K lam sd L r Qn : R) :
+  r_q_eoqss_approximation (ROps o) h p K lam sd L = Some (r, Qn) ->
+  0 < Qn /\ Qn * Qn * h = 2 * K * lam /\
+  forall y y' cy c, economic_order_quantity (ROps o) K h lam (Some y) = Some (y', cy) ->
+                    economic_order_quantity (ROps o) K h lam (Some Qn) = Some (Qn, c) -> c <= cy.
+Proof. exact (eoqss_Q_is_EOQ o h p K lam sd L r Qn). Qed.
+
+(* r minimises the translated one-period newsvendor cost of the lead-time demand, relative to the four stated facts about
+   scipy's norm.cdf/pdf/ppf (the same oracle hypotheses as Props/C10.v, Section Normal) *)
+Theorem C14_gen_eoqss_r_optimal (o : Oracles R) :
+  (forall z, derivable_pt_lim (o_norm_cdf o) z (o_norm_pdf o z)) ->
+  (forall z, derivable_pt_lim (o_norm_pdf o) z (- z * o_norm_pdf o z)) ->
+  (forall z, 0 <= o_norm_pdf o z) ->
+  (forall a, 0 < a < 1 -> o_norm_cdf o (o_norm_ppf o a) = a) ->
+  forall h p K lam sd L r Qn : R, r_q_eoqss_approximation (ROps o) h p K lam sd L = Some (r, Qn) ->
+  exists c, newsvendor_normal_cost (ROps o) r h p (lam * L) (sd * sqrt L) 0 = Some c /\
+  forall y cy, newsvendor_normal_cost (ROps o) y h p (lam * L) (sd * sqrt L) 0 = Some cy -> c <= cy.
+Proof. exact (eoqss_r_optimal o). Qed.
+
+(* refinement: on rational data the generated term returns the pair of the hand-written model Alg/RQ.v r_q_eoqss, provided the
+   model's function arguments sqrtf / ppf agree with sqrt / norm.ppf(., mu, sigma) at the one point each is used *)
+Theorem C14_gen_eoqss_refines_model (o : Oracles R) (sqrtf ppfq : Q -> Q) (h p K lam : Q) (sd L : R) :
+  0 < Q2R h -> 0 < Q2R p -> 0 < Q2R K -> 0 <= Q2R lam -> 0 <= sd -> 0 <= L -> 0 < Q2R lam * L -> 0 < sd * sqrt L ->
+  Q2R (sqrtf (2 * K * lam / h)%Q) = sqrt (Q2R (2 * K * lam / h)) ->
+  Q2R (ppfq (p / (p + h))%Q) = o_norm_ppf o (Q2R (p / (p + h))) * (sd * sqrt L) + Q2R lam * L ->
+  r_q_eoqss_approximation (ROps o) (Q2R h) (Q2R p) (Q2R K) (Q2R lam) sd L =
+  (let '(r, Qq) := r_q_eoqss sqrtf ppfq h p K lam in Some (Q2R r, Q2R Qq)).
+Proof. exact (eoqss_gen_refines o sqrtf ppfq h p K lam sd L). Qed.
+
+(* (5') r_q_optimal_r_for_q on the generated term (the while loop is the generated Fixpoint r_q_optimal_r_for_q__loop1): for EVERY
+   fuel, a returned r passed the guards, equalises the translated newsvendor cost at r and r + Q within tol and lies in [S - 5Q, S] *)
+Theorem C14_gen_r_for_q_exit (o : Oracles R) (fuel : nat) (Qn h p lam sd L tol r : R) :
+  r_q_optimal_r_for_q (ROps o) fuel Qn h p lam sd L tol = Some (Some r) ->
+  0 < Qn /\ 0 < h /\ 0 < p /\ 0 <= lam /\ 0 <= sd /\ 0 <= L /\ 0 < lam * L /\ 0 < sd * sqrt L /\
+  exists S c g gQ, newsvendor_normal (ROps o) h p (lam * L) (sd * sqrt L) 0 None = Some (S, c) /\
+    S = o_norm_ppf o (p / (p + h)) * (sd * sqrt L) + lam * L /\
+    newsvendor_normal_cost (ROps o) r h p (lam * L) (sd * sqrt L) 0 = Some g /\
+    newsvendor_normal_cost (ROps o) (r + Qn) h p (lam * L) (sd * sqrt L) 0 = Some gQ /\
+    Rabs (g - gQ) <= tol /\ S - 5 * Qn <= r <= S.
+Proof. exact (r_for_q_gen_exit o fuel Qn h p lam sd L tol r). Qed.
+
+(* ValueError (Some None) exactly on the guards, for every fuel: the loop itself raises nothing *)
+Theorem C14_gen_r_for_q_ValueError_iff (o : Oracles R) (fuel : nat) (Qn h p lam sd L tol : R) :
+  r_q_optimal_r_for_q (ROps o) fuel Qn h p lam sd L tol = Some None <->
+  (Qn <= 0 \/ h <= 0 \/ p <= 0 \/ lam < 0 \/ sd < 0 \/ L < 0 \/ lam * L <= 0 \/ sd * sqrt L <= 0).
+Proof. exact (r_for_q_gen_VErr_iff o fuel Qn h p lam sd L tol). Qed.
+
+(* refinement: generated function = hand-written [r_for_q] of Alg/RQ.v at the same fuel (same r; out of fuel <-> out of fuel), with
+   gn := the translated newsvendor_normal_cost on rationals and s := the translated newsvendor_normal level.  All theorems of this
+   file about [r_for_q gn Qn tol fuel s] (C14_r_for_q_exit, _bracket, _minimises_*, _terminates, _total) thereby speak about the
+   term generated from the source. *)
+Theorem C14_gen_r_for_q_refines_model (o : Oracles R) (gn : Q -> Q) (Qn tol s : Q) (h p lam sd L : R) (fuel : nat) :
+  0 < Q2R Qn -> 0 <= lam -> 0 <= sd -> 0 <= L ->
+  (exists c : R, newsvendor_normal (ROps o) h p (lam * L) (sd * sqrt L) 0 None = Some (Q2R s, c)) ->
+  (forall x : Q, newsvendor_normal_cost (ROps o) (Q2R x) h p (lam * L) (sd * sqrt L) 0 = Some (Q2R (gn x))) ->
+  r_q_optimal_r_for_q (ROps o) fuel (Q2R Qn) h p lam sd L (Q2R tol) =
+  match r_for_q gn Qn tol fuel s with None => None | Some r => Some (Some (Q2R r)) end.
+Proof. exact (r_for_q_gen_refines o gn Qn tol s h p lam sd L fuel). Qed.
+
+(* EOQB on the generated term: Q is the EOQB quantity and r is what the generated r_q_optimal_r_for_q returns for it with
+   tol = 1e-6 (so C14_gen_r_for_q_exit applies to r) *)
+Theorem C14_gen_eoqb (o : Oracles R) (fuel : nat) (h p K lam sd L r Qn : R) :
+  r_q_eoqb_approximation (ROps o) fuel h p K lam sd L = Some (Some (r, Qn)) ->
+  0 < h /\ 0 < p /\ 0 < K /\ 0 <= lam /\ 0 <= sd /\ 0 <= L /\
+  Qn = sqrt (2 * K * lam * (h + p) / (h * p)) /\ 0 <= Qn /\ h * p * (Qn * Qn) = 2 * K * lam * (h + p) /\
+  r_q_optimal_r_for_q (ROps o) fuel Qn h p lam sd L (1 / 1000000) = Some (Some r).
+Proof. exact (eoqb_gen_inv o fuel h p K lam sd L r Qn). Qed.
+
+(* FINDING about Section Approx above (C14_eil_fixed_point, C14_lossfn_fixed_point, C14_eoqb, C14_eoqss): its hypothesis
+   sqrt_sq : forall x, 0 <= x -> sqrtf x * sqrtf x == x  over  sqrtf : Q -> Q  has no model (no rational square root of 2), so those four
+   theorems are vacuous as stated; the C14_gen_* theorems above are their non-vacuous counterparts on the generated terms (at the
+   reals sqrt x * sqrt x = x is a theorem), and C14_gen_eoqss_refines_model needs the square root only at the argument used *)
+Theorem C14_approx_sqrt_hypothesis_unsatisfiable :
+  ~ exists sqrtf : Q -> Q, forall x : Q, (0 <= x)%Q -> (sqrtf x * sqrtf x == x)%Q.
+Proof. exact no_rational_sqrt. Qed.
+
+(* non-vacuity.  (a) h = p = 1, K = 2, lam = sd = L = 1: every oracle record gives Q = 2.
+   (b) an oracle record and rational data satisfying all hypotheses of the refinement theorem, on which model and generated term
+   return 15/2 (cdf = pdf = ppf = 0 makes the translated cost the rational function 10 - y; the gap 1 is within tol = 2 at once) *)
+Example C14_gen_eoqss_nonvacuous (o : Oracles R) : exists r : R, r_q_eoqss_approximation (ROps o) 1 1 2 1 1 1 = Some (r, 2).
+Proof. exact (eoqss_example o). Qed.
+Example C14_gen_refines_nonvacuous :
+  0 < Q2R 1 /\ (exists c : R, newsvendor_normal (ROps o_zero) 1 1 (10 * 1) (2 * sqrt 1) 0 None = Some (Q2R 10, c)) /\
+  (forall x : Q, newsvendor_normal_cost (ROps o_zero) (Q2R x) 1 1 (10 * 1) (2 * sqrt 1) 0 = Some (Q2R (10 - x))) /\
+  r_for_q (fun x => 10 - x)%Q 1 2 0 10 = Some (15 # 2) /\
+  r_q_optimal_r_for_q (ROps o_zero) 0 (Q2R 1) 1 1 10 2 1 (Q2R 2) = Some (Some (Q2R (15 # 2))).
+Proof. exact refines_example. Qed.
+
+(* ====================================================================== part B: stockpyl.ss.s_s_power_approximation (in no property's text; kept with the other source-generated approximations) *)
+
+(* power approximation (Ehrhardt-Mosier) on the generated term: whenever the five documented guards pass it returns (s, s + Q_p) with
+   the documented formulas (4.77)-(4.80); x^a is Rpower (the real power for x > 0) *)
+Theorem C13_gen_power_def (o : Oracles R) (h p K mu sd : R) : 0 < h -> 0 < p -> 0 < K -> 0 <= mu -> 0 <= sd ->
+  s_s_power_approximation (ROps o) h p K mu sd = Some (pa_s h p K mu sd, pa_s h p K mu sd + pa_Q h K mu sd).
+Proof. exact (power_def o h p K mu sd). Qed.
+(* None exactly on the documented ValueErrors *)
+Theorem C13_gen_power_ValueError_iff (o : Oracles R) (h p K mu sd : R) :
+  s_s_power_approximation (ROps o) h p K mu sd = None <-> (h <= 0 \/ p <= 0 \/ K <= 0 \/ mu < 0 \/ sd < 0).
+Proof. exact (power_None_iff o h p K mu sd). Qed.
+(* for 0 < demand_mean and 0 < demand_sd (Python raises ZeroDivisionError at 0, which the translator does not model):
+   S - s = Q_p > 0, z > 0 is the root of z^2 = (Q_p/sigma)(h/p), s and Q_p are the documented expressions *)
+Theorem C13_gen_power_spec (o : Oracles R) (h p K mu sd s S : R) : 0 < mu -> 0 < sd ->
+  s_s_power_approximation (ROps o) h p K mu sd = Some (s, S) ->
+  0 < h /\ 0 < p /\ 0 < K /\
+  let Qp := pa_Q h K mu sd in let z := pa_z h p K mu sd in
+  S - s = Qp /\ 0 < Qp /\ s < S /\ 0 < z /\ z * z = Qp / sd * (h / p) /\
+  s = 973 / 1000 * mu + sd * (183 / 1000 / z + 1063 / 1000 - 274 / 125 * z) /\
+  Qp = 13 / 10 * Rpower mu (247 / 500) * Rpower (K / h) (253 / 500) * Rpower (1 + (sd / mu) * (sd / mu)) (29 / 250).
+Proof. exact (power_spec o h p K mu sd s S). Qed.
+Example C13_gen_power_nonvacuous (o : Oracles R) : exists s S : R,
+  s_s_power_approximation (ROps o) (18 / 100) (7 / 10) (5 / 2) 50 8 = Some (s, S) /\ s < S /\ S - s = pa_Q (18 / 100) (5 / 2) 50 8.
+Proof. exact (power_example o). Qed.
+
+Print Assumptions C14_gen_eoqss_def.
+Print Assumptions C14_gen_eoqss_inv.
+Print Assumptions C14_gen_eoqss_ValueError_iff.
+Print Assumptions C14_gen_eoqss_Q_is_EOQ.
+Print Assumptions C14_gen_eoqss_r_optimal.
+Print Assumptions C14_gen_eoqss_refines_model.
+Print Assumptions C14_gen_r_for_q_exit.
+Print Assumptions C14_gen_r_for_q_ValueError_iff.
+Print Assumptions C14_gen_r_for_q_refines_model.
+Print Assumptions C14_gen_eoqb.
+Print Assumptions C14_approx_sqrt_hypothesis_unsatisfiable.
+Print Assumptions C13_gen_power_def.
+Print Assumptions C13_gen_power_ValueError_iff.
+Print Assumptions C13_gen_power_spec.
